@@ -3,6 +3,7 @@ import OutlineModel.Drive.IP
 import OutlineModel.Drive.UDP
 import OutlineModel.Drive.NatConn
 import OutlineModel.Drive.Auth
+import OutlineModel.Drive.Conc
 /- Model driver: one op per line on stdin, one result per line on stdout.
    First word selects the engine.  Core only (no Mathlib) so it links as a lean_exe. -/
 open OutlineModel
@@ -18,6 +19,8 @@ def stepLine (st : St) (line : String) : St × String :=
   | "replay" :: args => let (s, o) := Drive.Replay.step st.replay args; ({ st with replay := s }, o)
   | "udp" :: args => let (s, o) := Drive.UDP.step st.udp args; ({ st with udp := s }, o)
   | "auth" :: args => let (s, o) := Drive.Auth.step st.auth args; ({ st with auth := s }, o)
+  | "conc" :: args => (st, Drive.Conc.step args)
+  | "locks" :: args => (st, Drive.Conc.stepLocks args)
   | "nc" :: args => let (s, o) := Drive.NatConn.step st.nc args; ({ st with nc := s }, o)
   | "ip" :: args => (st, Drive.IP.step args)
   | _ => (st, "bad-engine")
